@@ -17,11 +17,11 @@ GF(n, g) == [name |-> n, g |-> g]
 GVar(n, vk, fields) == [name |-> n, vk |-> vk, fields |-> fields]
 \* tparams: sequence of names; cparams: sequence of [name, ck]
 DefStruct(n, zc, da, reprs, cparams, tparams, fields) ==
-  [dk |-> "struct", name |-> n, zc |-> zc, da |-> da, reprs |-> reprs,
+  [dk |-> "struct", mod |-> "", name |-> n, zc |-> zc, da |-> da, reprs |-> reprs,
    cparams |-> cparams, tparams |-> tparams, tbounds |-> [i \in 1..Len(tparams) |-> ""],
    fields |-> fields, variants |-> <<>>]
 DefEnum(n, zc, da, reprs, cparams, tparams, variants) ==
-  [dk |-> "enum", name |-> n, zc |-> zc, da |-> da, reprs |-> reprs,
+  [dk |-> "enum", mod |-> "", name |-> n, zc |-> zc, da |-> da, reprs |-> reprs,
    cparams |-> cparams, tparams |-> tparams, tbounds |-> [i \in 1..Len(tparams) |-> ""],
    fields |-> <<>>, variants |-> variants]
 \* bounds written on the type parameters of the definition (Rust syntax)
@@ -55,12 +55,14 @@ ParamUsed(def, i) ==
 Inst(def, targs, cargs) ==
   LET tps == [i \in 1..Len(def.tparams) |-> TP(def.tparams[i], targs[i], ParamUsed(def, i))]
       consts == [i \in 1..Len(def.cparams) |-> Cst(def.cparams[i].name, def.cparams[i].ck, cargs[i])]
-  IN IF def.dk = "struct"
-     THEN Struct(def.name, def.zc, def.da, def.reprs, consts, tps, InstFields(def.fields, targs, cargs))
-     ELSE Enum(def.name, def.zc, def.da, def.reprs, consts, tps,
-               [j \in 1..Len(def.variants) |->
-                  Var(def.variants[j].name, def.variants[j].vk,
-                      InstFields(def.variants[j].fields, targs, cargs))])
+      d == IF def.dk = "struct"
+           THEN Struct(def.name, def.zc, def.da, def.reprs, consts, tps, InstFields(def.fields, targs, cargs))
+           ELSE Enum(def.name, def.zc, def.da, def.reprs, consts, tps,
+                     [j \in 1..Len(def.variants) |->
+                        Var(def.variants[j].name, def.variants[j].vk,
+                            InstFields(def.variants[j].fields, targs, cargs))])
+  IN \* `mod` = the Rust module the definition lives in (not part of any hash, not structure)
+     [x \in DOMAIN d \cup {"mod"} |-> IF x = "mod" THEN def.mod ELSE d[x]]
 
 ---------------------------------------------------------------------------
 (* Core definitions (the "derived leaves").                                *)
@@ -126,6 +128,7 @@ DCn(n) == Inst(D_DC, <<>>, <<n>>)
 NumStr(n) == ToString(n)
 RECURSIVE Key(_), KeyList(_, _)
 KeyList(ts, i) == IF i > Len(ts) THEN "" ELSE Key(ts[i]) \o "," \o KeyList(ts, i + 1)
+ModPrefix(T) == IF T.mod = "" THEN "" ELSE T.mod \o "::"
 RECURSIVE ConstKeys(_, _)
 ConstKeys(cs, i) == IF i > Len(cs) THEN "" ELSE NumStr(cs[i].val) \o "," \o ConstKeys(cs, i + 1)
 RECURSIVE RepStr(_, _)
@@ -150,8 +153,8 @@ Key(T) ==
     [] T.k = "cflow" -> "ControlFlow<" \o Key(T.b) \o "," \o Key(T.c) \o ">"
     [] T.k = "range" -> T.rk \o "<" \o Key(T.elem) \o ">"
     [] T.k \in {"struct", "enum"} ->
-         IF T.tps = <<>> /\ T.consts = <<>> THEN T.name
-         ELSE T.name \o "<" \o KeyList([i \in 1..Len(T.tps) |-> T.tps[i].arg], 1)
+         IF T.tps = <<>> /\ T.consts = <<>> THEN ModPrefix(T) \o T.name
+         ELSE ModPrefix(T) \o T.name \o "<" \o KeyList([i \in 1..Len(T.tps) |-> T.tps[i].arg], 1)
               \o ConstKeys(T.consts, 1) \o ">"
 
 ---------------------------------------------------------------------------
